@@ -122,7 +122,13 @@ static Outcome runCase(const KV& c)
         o.fail("parallel_vs_serial", "parallel and serial outputs have different sizes");
         return o;
     }
-    const double tol = (op == OP11_SOLVE ? 1e-6 : 1e-8) * (scale + 1e-300);
+    // give-type operators accumulate in a thread-count dependent order; line and direct solves amplify that re-association by
+    // their condition number, which grows with the grid: 1e-6 on the levels above 10000 nodes (observed 3e-8 on the unchanged
+    // tree), 1e-8 on the small shape classes (observed < 1e-11). Schedule defects show up as 1e-3 and more.
+    const bool large = c.getS("size_class", "") == "above_10000_nodes";
+    if (large)
+        o.cls("operator_level_above_10000_nodes");
+    const double tol = ((op == OP11_SOLVE || large) ? 1e-6 : 1e-8) * (scale + 1e-300);
     o.mx("par_vs_serial_rel", scale > 0 ? d1 / scale : d1);
     if (d1 > tol) {
         char buf[200];
